@@ -8,7 +8,7 @@ pub(crate) struct CompoundSelector {
     element: Option<ElemType>,
     placeholders: Vec<String>,
     classes: Vec<String>,
-    id: Option<String>,
+    id: Vec<String>,
     attr: Vec<Attribute>,
     pseudo: Vec<Pseudo>,
 }
@@ -19,7 +19,7 @@ impl CompoundSelector {
             && self.backref.is_none()
             && self.placeholders.is_empty()
             && self.classes.is_empty()
-            && self.id.is_none()
+            && self.id.is_empty()
             && self.attr.is_empty()
             && self.pseudo.is_empty()
     }
@@ -28,7 +28,7 @@ impl CompoundSelector {
         self.backref.is_some() || self.pseudo.iter().any(Pseudo::has_backref)
     }
     pub(super) fn has_id(&self) -> bool {
-        self.id.is_some()
+        !self.id.is_empty()
     }
     pub(super) fn cant_append(&self) -> bool {
         self.is_empty()
@@ -54,7 +54,7 @@ impl CompoundSelector {
     /// Return true if these compound selectors can't meaningfully
     /// appear in the same selector.
     pub(super) fn must_not_inherit(&self, other: &Self) -> bool {
-        if self.id.is_some() && self.id == other.id {
+        if self.id.iter().any(|id| other.id.contains(id)) {
             return true;
         }
         if let Some(pseudo) = self.pseudo_element()
@@ -90,9 +90,7 @@ impl CompoundSelector {
         }
         self.placeholders
             .retain(|p| !original.placeholders.iter().any(|o| o == p));
-        if original.id == self.id {
-            self.id = None;
-        }
+        self.id.retain(|id| !original.id.contains(id));
         self.attr.retain(|a| !original.attr.iter().any(|o| a == o));
         self.classes
             .retain(|c| !original.classes.iter().any(|o| c == o));
@@ -130,7 +128,7 @@ impl CompoundSelector {
                 || sub.element.as_ref().is_some_and(|s| e.is_superselector(s))
         }) && all_any(&self.placeholders, &sub.placeholders, PartialEq::eq)
             && all_any(&self.classes, &sub.classes, PartialEq::eq)
-            && self.id.iter().all(|id| sub.id.as_ref() == Some(id))
+            && all_any(&self.id, &sub.id, PartialEq::eq)
             && all_any(&self.attr, &sub.attr, Attribute::is_superselector)
             && all_any(&self.pseudo, &sub.pseudo, Pseudo::is_superselector)
             && self.pseudo_element().as_ref().map_or_else(
@@ -176,7 +174,7 @@ impl CompoundSelector {
             && (!e.is_any()
                 || (self.classes.is_empty()
                     && self.placeholders.is_empty()
-                    && self.id.is_none()
+                    && self.id.is_empty()
                     && self.pseudo.is_empty()))
         {
             e.write_to(buf);
@@ -185,7 +183,7 @@ impl CompoundSelector {
             buf.add_char('%');
             buf.add_str(p);
         }
-        if let Some(id) = &self.id {
+        for id in &self.id {
             buf.add_char('#');
             buf.add_str(id);
         }
@@ -243,17 +241,13 @@ impl CompoundSelector {
                 self.classes.push(c);
             }
         }
-        self.id = match (self.id, other.id) {
-            (None, None) => None,
-            (None, Some(id)) | (Some(id), None) => Some(id),
-            (Some(s_id), Some(o_id)) => {
-                if s_id == o_id {
-                    Some(s_id)
-                } else {
-                    return None;
-                }
-            }
-        };
+        // Different ids can't match the same element.
+        if self.id.iter().any(|s| other.id.iter().any(|o| s != o)) {
+            return None;
+        }
+        if self.id.is_empty() {
+            self.id = other.id;
+        }
 
         combine_vital(
             &mut self.attr,
@@ -291,8 +285,8 @@ impl fmt::Debug for CompoundSelector {
         if !self.placeholders.is_empty() {
             s.field("placeholders", &self.placeholders);
         }
-        if let Some(id) = &self.id {
-            s.field("id", &id);
+        if !self.id.is_empty() {
+            s.field("id", &self.id);
         }
         if !self.classes.is_empty() {
             s.field("classes", &self.classes);
@@ -358,7 +352,7 @@ pub(crate) mod parser {
                 Some(b'#') => {
                     let (r, id) =
                         preceded(tag("#"), css_string).parse(rest)?;
-                    result.id = Some(id);
+                    result.id.push(id);
                     r
                 }
                 Some(b'%') => {
